@@ -21,6 +21,14 @@ def proj(kind, o):
         o = re.sub(r"dec=err\((\w+),[^)]*\)", r"dec=err(\1)", o)
         m = re.match(r"dec=ok dump=.* reenc=(\w*)", o)
         return "ok " + m.group(1) if m else o
+    if kind == "jsonenc":
+        # a value built by hand and encoded by both packages: the encoder's verdict and the canonical JSON
+        if o.startswith("build-error") or o.startswith("no-such-type") or o.startswith("bad-args"):
+            return "unbuildable"
+        if o.startswith("enc=ERR"):
+            return "enc=ERR"
+        m = re.search(r"valid=(\w+) dup=(\w+) canon=(\w*)", o)
+        return "valid=%s dup=%s canon=%s" % m.groups() if m else o
     if kind == "respinfo":
         # array header lengths are seeded per constructor: compare "all field lines written", not the count
         o = re.sub(r"hv=(-?\d+)/(-?\d+)", lambda m: "hv=ok" if m.group(1) == m.group(2) or m.group(2) == "-1" else m.group(0), o)
@@ -79,6 +87,11 @@ def check(ctx):
             n += 1
             kinds[r[1]] = kinds.get(r[1], 0) + 1
             a, b = proj(r[1], r[2]), proj(r[1], r[3])
+            if "unbuildable" in (a, b):
+                # the value description fits only one of the two Go shapes: no comparison
+                kinds["jsonenc(not comparable)"] = kinds.get("jsonenc(not comparable)", 0) + 1
+                agree += 1
+                continue
             if a == b:
                 agree += 1
                 if "S:404" not in a:
